@@ -582,13 +582,19 @@ def rule_FR5(ctx, rep):
     bufalias0 = any(isinstance(s, ast.Assign) and norm(s.value) == 'self.bytes' for s in iter_nodes(rcv.node))
     # the frame length, as a linear form over the header fields: what one iteration removes from the buffer (`del buf[:E]`),
     # whether E is a named temporary or written out
-    env = {}
-    for s in iter_nodes(lp):
-        if isinstance(s, ast.Assign) and len(s.targets) == 1 and isinstance(s.targets[0], ast.Name):
-            v_ = to_lin(s.value, env, opaque=False)
-            if v_ is not None:
-                env[s.targets[0].id] = v_
+    def env_at(node):
+        # linear values of the loop's locals as assigned (in source order) before `node`
+        e_ = {}
+        for s in iter_nodes(lp):
+            if isinstance(s, ast.Assign) and len(s.targets) == 1 and isinstance(s.targets[0], ast.Name) and (node is None or astq.position(s) < astq.position(node)):
+                v_ = to_lin(s.value, e_, opaque=False)
+                if v_ is not None:
+                    e_[s.targets[0].id] = v_
+                else:
+                    e_.pop(s.targets[0].id, None)
+        return e_
     dels = [s for s in iter_nodes(lp) if isinstance(s, ast.Delete)]
+    env = env_at(dels[0] if len(dels) == 1 else None)
     frame = None
     if len(dels) == 1 and isinstance(dels[0].targets[0], ast.Subscript) and isinstance(dels[0].targets[0].slice, ast.Slice) \
             and dels[0].targets[0].slice.lower is None and dels[0].targets[0].slice.upper is not None:
@@ -615,7 +621,7 @@ def rule_FR5(ctx, rep):
         if len(ifs) == 1 and ifs[0][1] == 'body':
             t = ifs[0][0].test
             lg2 = _len_guard(t, {'data', 'self.bytes'})
-            need = to_lin(lg2[1], env, opaque=False) if lg2 is not None else None
+            need = to_lin(lg2[1], env_at(ifs[0][0]), opaque=False) if lg2 is not None else None
             if lg2 is not None and lg2[0] is ast.Lt and frame is not None and need == frame + base:
                 good = True
             elif lg2 is not None and lg2[0] is ast.Lt and need is not None and (need - base).is_const() and (need - base).c <= f['hsize']:
